@@ -186,7 +186,7 @@ void Lexer::makeNumber() {
     int i = 0;
     char c = getNextChar(i);
     while (isdigit(c = getNextChar(++i))) {}
-    if (c != '/' || !isdigit(c = getNextChar(++i))) return;
+    if (i < 2 || c != '/' || !isdigit(c = getNextChar(++i))) return;
 
     for (int j = 0; j < i; j++) advance();
     while (isdigit(currentChar) && idx < expr->size()) advance();
